@@ -119,5 +119,4 @@ def good (s : S) : Bool :=
 #eval reach.filter (fun s => !good s) |>.length
 #eval (reach.filter (fun s => !good s)).take 3
 
-theorem reach_closed : closed reach = true := by decide +kernel
 end Tmo
